@@ -602,6 +602,18 @@ def c19_compass(prefix):
                           "padaxis 0 0 1/2", "frame", "padaxis 0 1 -1/4", "frame", "padaxis 0 2 1", "padaxis 0 3 3/4", "frame",
                           "padaxis 0 0 0", "padaxis 0 1 0", "frame", "endscenario"]
                 out.append(lines)
+    # the named constructors `Cardinal::wasd_keys()` / `Cardinal::dpad_buttons()`
+    for route in (0, 1, 2, 3):
+        lines = [f"scenario {prefix}{i}", "ctx 0 0 any", "act 2"] + ([f"route {route}"] if route else []) + ["preset wasd", "act 6"] + \
+                ([f"route {route}"] if route else []) + ["preset dpad", "pad+ 0", "spawn 0", "insert 0 0 0", "frame"]
+        i += 1
+        for k in (16, 3, 17, 0):
+            lines += [f"key {k} 1", "frame", f"key {k} 0", "frame"]
+        lines += ["key 16 1", "key 3 1", "frame", "key 17 1", "key 0 1", "frame", "key 16 0", "key 3 0", "frame", "key 17 0", "key 0 0", "frame"]
+        for b in (4, 7, 5, 6):
+            lines += [f"padbtn 0 {b} 1", "frame", f"padbtn 0 {b} 0", "frame"]
+        lines += ["padbtn 0 4 1", "padbtn 0 6 1", "frame", "padbtn 0 4 0", "padbtn 0 6 0", "frame", "endscenario"]
+        out.append(lines)
     # rich fields: keys carrying their own swizzle, raw gamepad axes / buttons and nested stick presets as preset fields
     script = ["pad+ 0", "spawn 0", "insert 0 0 0", "frame"]
     for k in (0, 1, 2, 3, 6, 7):
